@@ -279,8 +279,8 @@ theorem Btf.read_budget (P : Params) (utf8 : Bytes → Bool) (s : Bytes) (n : Na
     omega
 
 /-- **`read_to_end` terminates on any input**: with more fuel than the budget of the state,
-    `Btf.readAll` never panics (the budget is at most `(offsets.length + 1) × (|s| + 1)`).  The
-    model's own fuel `|s| + 2` is NOT enough for a hostile offsets list — see `C08`. -/
+    `Btf.readAll` never panics (the budget is at most `(offsets.length + 1) × (|s| + 1)`, which is
+    the fuel `Reader.getFile` uses; `|s| + 2` would NOT be enough for a hostile offsets list). -/
 theorem Btf.readAll_noPanic (P : Params) (utf8 : Bytes → Bool) (s : Bytes) (n : Nat) :
     ∀ (fuel : Nat) (b : Btf), Btf.budget s b < fuel → NoPanic (Btf.readAll P utf8 s n fuel b) := by
   intro fuel
@@ -302,6 +302,35 @@ theorem Btf.readAll_noPanic (P : Params) (utf8 : Bytes → Bool) (s : Bytes) (n 
         · rename_i e he'
           exact this.of_err he'
         · exact NoPanic.ok _
+
+theorem Btf.new_shape {P : Params} {utf8 : Bytes → Bool} {s : Bytes} {offsets : List Nat} {b : Btf}
+    (h : Btf.new P utf8 s offsets = .ok b) : b.offsets = offsets ∧ b.curOff = 0 := by
+  unfold Btf.new at h
+  split at h
+  · cases h
+  · split at h
+    · cases h
+    · simp only [Except.ok.injEq] at h
+      subst h; exact ⟨rfl, rfl⟩
+    · cases h
+
+/-- **`get_file` + `read_to_end` never panics**, for any stream, any index, any buffer size
+    (with `n = 0` every read returns `[]` and `read_to_end` stops at once) -/
+theorem Reader.getFile_noPanic (P : Params) (utf8 : Bytes → Bool) (s : Bytes) (ix : Index)
+    (name : Bytes) (n : Nat) : NoPanic (Reader.getFile P utf8 s ix name n) := by
+  unfold Reader.getFile
+  split
+  · exact NoPanic.err rfl
+  · rename_i fi _
+    split
+    · rename_i e he
+      exact (Btf.new_noPanic P utf8 s fi.offsets).of_err he
+    · rename_i b hb
+      obtain ⟨h1, h2⟩ := Btf.new_shape hb
+      apply Btf.readAll_noPanic
+      unfold Btf.budget
+      rw [h1, h2, Nat.sub_zero, Nat.add_mul]
+      omega
 
 theorem Linear.loop_noPanic (P : Params) (utf8 : Bytes → Bool) (chosen : List Bytes) :
     ∀ (fuel : Nat) (s : Bytes) (m : List (Nat × Bytes)) (out : List (Bytes × Bytes)),
